@@ -16,6 +16,7 @@ from sklearn.base import clone
 from sklearn.cluster import KMeans
 from sklearn.decomposition import PCA
 from sklearn.linear_model import LinearRegression, LogisticRegression
+from sklearn.neighbors import KNeighborsRegressor
 from sklearn.preprocessing import StandardScaler
 from sklearn.tree import DecisionTreeClassifier, DecisionTreeRegressor
 
@@ -36,6 +37,13 @@ PTreeReg = P.make_peer(DecisionTreeRegressor)
 PKMeans = P.make_peer(KMeans)
 PScaler = P.make_peer(StandardScaler)
 PPCA = P.make_peer(PCA)
+PKNNReg = P.make_peer(KNeighborsRegressor)
+
+
+def _flat_weights(dist):
+    """A callable-valued option of the wrapped estimator."""
+    return numpy.ones_like(dist)
+
 
 MODELS = {
     "logreg": (lambda: PLogReg(max_iter=60), ("predict", "predict_proba", "decision_function")),
@@ -46,6 +54,10 @@ MODELS = {
     "kmeans": (lambda: PKMeans(n_clusters=2, n_init=2, random_state=0), ("predict", "transform")),
     "inplace-linreg": (lambda: InPlaceLinReg(), ("predict",)),
     "warmstart-linreg": (lambda: WarmStartLinReg(), ("predict",)),
+    # holds a callable parameter: clone_with_fitted_parameters refuses it
+    # (RuntimeError), so a copying TransferTransformer cannot be fitted -- and
+    # must then leave the estimator alone
+    "knn-callable": (lambda: PKNNReg(n_neighbors=2, weights=_flat_weights, algorithm="brute"), ("predict",)),
     "scaler": (lambda: PScaler(), ("transform",)),
     "pca": (lambda: PPCA(n_components=1), ("transform",)),
 }
@@ -93,7 +105,7 @@ class WarmStartLinReg(PLinReg):
 
 # only meaningful inside a TransferTransformer (a wrapper refitting it twice
 # would legitimately differ from a reference fitted once)
-TRANSFER_ONLY = ("warmstart-linreg",)
+TRANSFER_ONLY = ("warmstart-linreg", "knn-callable")
 
 
 def _first_column_twice(X):
@@ -208,10 +220,28 @@ def _run_learner(c, sim):
     fitted = False
     nops = ch.integer("w", 3, 9, "nops")
     for k in range(nops):
-        kinds = ["fit", "transform", "transform", "set-model", "set-method", "clone", "fit-fail", "transform-reused-buffer"]
+        kinds = ["fit", "transform", "transform", "set-model", "set-method", "clone", "fit-fail", "transform-reused-buffer", "stack-elsewhere"]
         op = ch.choice("w", kinds, "op")
         if len(c.scenario["ops"]) < 16:
             c.scenario["ops"].append(op)
+        if op == "stack-elsewhere":
+            # the user also puts this wrapper into a stacking built with
+            # another method: building that second object is not a set_params
+            # on the wrapper, which keeps returning the method it was given
+            others = [m for m in ("predict", "predict_proba", "decision_function", "transform") if m != chosen and m in MODELS[cur_name][1]]
+            if not others or callable(chosen):
+                continue
+            other = others[ch.draw("w", len(others), "stack-method")]
+            before = wr.get_params(deep=False).get("method")
+            ok, keep_alive = U.sut(c, "SkBaseTransformStacking([wrapper], other method)", SkBaseTransformStacking, [wr], other)
+            if not ok:
+                c.probe("stacking_construction_raised")
+                continue
+            now = wr.get_params(deep=False).get("method")
+            if now != before:
+                sim.viol("transparency", ("learner", "retargeted-by-another-object"), "after SkBaseTransformStacking([wrapper], %r) was built, the wrapper reports method %r instead of %r" % (other, now, chosen))
+            c.probe("wrapper_shared_with_a_stacking")
+            continue
         if op in ("fit", "fit-fail"):
             data = dataA if ch.boolean("w", 0.5, "which") else dataB
             kw = {"sample_weight": data["w"]} if data["w"] is not None and cur_name != "pca" else {}
@@ -386,7 +416,7 @@ def _run_stacking(c, sim):
 # ---------------------------------------------------------------------------
 def _run_transfer(c, sim):
     ch = c.ch
-    name = ch.choice("w", ["logreg", "treeclf", "linreg", "treereg", "scaler", "kmeans", "pca", "inplace-linreg", "warmstart-linreg"], "inner")
+    name = ch.choice("w", ["logreg", "treeclf", "linreg", "treereg", "scaler", "kmeans", "pca", "inplace-linreg", "warmstart-linreg", "knn-callable"], "inner")
     methods = MODELS[name][1]
     mchoice = ch.choice("w", [None] + list(methods), "method")
     copy_estimator = ch.choice("w", [True, False], "copy")
@@ -469,6 +499,11 @@ def _run_transfer(c, sim):
                     fitted = False
                 if fired:
                     c.probe("inner_fit_failed")
+            elif not ok and name == "knn-callable" and isinstance(r, RuntimeError) and "Cannot migrate" in str(r):
+                # documented refusal of the copy helper; the oracles below
+                # still apply: the estimator was not touched
+                fitted = False
+                c.probe("copy_of_estimator_refused")
             elif not ok:
                 sim.viol(
                     "fit-raised",
